@@ -1103,7 +1103,7 @@ fn is_known(known: &[String], sig: &str) -> bool {
 }
 
 fn hist_json(h: &Hist) -> J {
-    json!({"statements": h.stmts.iter().map(|s| s.text()).map(|s| if s.len() > 400 { format!("{}..({}B)", &s[..300], s.len()) } else { s }).collect::<Vec<_>>(), "close_style": if h.explicit_close { "Database::close() then drop" } else { "drop only" }, "tiny_threshold": h.tiny_val})
+    json!({"statements": h.stmts.iter().map(|s| s.text()).map(|s| if s.len() > 200 { format!("{}..({}B)", &s[..160], s.len()) } else { s }).collect::<Vec<_>>(), "close_style": if h.explicit_close { "Database::close() then drop" } else { "drop only" }, "tiny_threshold": h.tiny_val})
 }
 
 fn hist_full_json(h: &Hist) -> J {
